@@ -925,6 +925,26 @@ impl DhtCoreEngine {
         })
     }
 
+    /// Store data in this node's own store, unconditionally.
+    ///
+    /// Unlike [`store`](Self::store), which only keeps the value locally when this node is
+    /// among the selected storage targets, this is the primitive a node uses once it has
+    /// decided (or been asked by a peer) to hold a value.
+    ///
+    /// # Errors
+    /// Returns an error if the value exceeds `MAX_DHT_VALUE_SIZE` (512 bytes).
+    pub async fn store_local(&self, key: &DhtKey, value: Vec<u8>) -> Result<()> {
+        if value.len() > MAX_DHT_VALUE_SIZE {
+            return Err(anyhow::anyhow!(
+                "Value too large: {} bytes (max: {} bytes)",
+                value.len(),
+                MAX_DHT_VALUE_SIZE
+            ));
+        }
+        self.data_store.write().await.put(key.clone(), value);
+        Ok(())
+    }
+
     /// Retrieve data from the DHT
     ///
     /// First checks local storage. If not found locally and a transport is configured,
